@@ -2,7 +2,6 @@ package main
 
 import (
 	"fmt"
-	"sync"
 	"go/token"
 	"go/types"
 	"os"
@@ -11,6 +10,7 @@ import (
 	"runtime/debug"
 	"sort"
 	"strings"
+	"sync"
 
 	"golang.org/x/tools/go/packages"
 	"golang.org/x/tools/go/ssa"
@@ -311,6 +311,17 @@ func (d *Driver) GenVC(key string, safety bool, lockCheck bool) (fvc *FuncVC) {
 	env := &Env{ex: ex, vars: map[string]*Val{}, cur: entry, old: entry}
 	for i, p := range fn.Params {
 		env.vars[p.Name()] = args[i]
+	}
+	// the synthetic package initialiser runs once: its guard variable is false at entry
+	if fn.Name() == "init" && fn.Synthetic != "" {
+		for _, m := range fn.Pkg.Members {
+			if g, ok := m.(*ssa.Global); ok && g.Name() == "init$guard" {
+				gv := fr0val(ex, st, g)
+				if gv != "" {
+					vc.assume(not(gv))
+				}
+			}
+		}
 	}
 	// global invariants hold at entry of every function except package init
 	if fn.Name() != "init" && !strings.HasPrefix(fn.Name(), "init#") && c != nil {
@@ -614,4 +625,16 @@ func (d *Driver) dataDecls() string {
 	// two passes: rendering may register further sequence sorts
 	d.w.DataDecls()
 	return d.w.DataDecls()
+}
+
+// fr0val reads a boolean package-level variable in state st ("" if it is not a tracked state variable).
+func fr0val(ex *Exec, st *State, g *ssa.Global) string {
+	name := "G_" + sanitize(g.Pkg.Pkg.Name()+"_"+g.Name())
+	elem := g.Type().(*types.Pointer).Elem()
+	s := ex.w.SortOf(elem)
+	if s.K != KBool {
+		return ""
+	}
+	ex.regSV(name, s)
+	return ex.get(st, name)
 }
